@@ -481,3 +481,16 @@ func constantFromString(lit string) constant.Value {
 	}
 	return constant.MakeFromLiteral(lit, token.INT, 0)
 }
+
+func constantUint(v V) (uint64, bool) {
+	if v.K != vConst || v.C.Kind() != constant.Int {
+		return 0, false
+	}
+	if u, ok := constant.Uint64Val(v.C); ok {
+		return u, true
+	}
+	if i, ok := constant.Int64Val(v.C); ok {
+		return uint64(i), true
+	}
+	return 0, false
+}
